@@ -55,40 +55,43 @@ var (
 	cConcurrent = simrt.RegisterCounter("probe_requests_overlapping_in_handler")
 	cLive       = simrt.RegisterCounter("probe_liveness_joins_after_faults")
 
-	fStoKeys     = simrt.RegisterCounter("fault_storage_devicekeys_error")
-	fStoKEK      = simrt.RegisterCounter("fault_storage_kek_error")
-	fStoLabel    = simrt.RegisterCounter("fault_storage_askeklabel_error")
-	fStoNet      = simrt.RegisterCounter("fault_storage_homenetid_error")
-	fStoSlow     = simrt.RegisterCounter("fault_storage_slow")
-	fNonce       = simrt.RegisterCounter("fault_joinnonce_overflow")
-	fNonceEdge   = simrt.RegisterCounter("fault_joinnonce_counter_near_its_24bit_end")
-	fKEKLen      = simrt.RegisterCounter("fault_kek_invalid_length")
-	fUnknown     = simrt.RegisterCounter("fault_unknown_deveui")
-	fBadMIC      = simrt.RegisterCounter("fault_radio_corrupted_mic")
-	fBodyShort   = simrt.RegisterCounter("fault_body_short_reads")
-	fBodyErr     = simrt.RegisterCounter("fault_body_read_error")
-	fBodyEmpty   = simrt.RegisterCounter("fault_body_empty")
-	fBodyJunk    = simrt.RegisterCounter("fault_body_malformed_json")
-	fWrongType   = simrt.RegisterCounter("fault_body_wrong_message_type")
-	fWriteErr    = simrt.RegisterCounter("fault_response_write_error")
-	fRespLost    = simrt.RegisterCounter("fault_response_lost_then_retry")
-	fRxDelay     = simrt.RegisterCounter("fault_rxdelay_out_of_range")
-	fRotate      = simrt.RegisterCounter("fault_device_keys_rotated")
-	fConfused    = simrt.RegisterCounter("fault_message_type_and_frame_type_disagree")
-	cEmptyCFList = simrt.RegisterCounter("probe_explicit_empty_cflist_member")
-	cRotRace     = simrt.RegisterCounter("probe_request_overtaken_by_key_rotation")
-	fRetryDup    = simrt.RegisterCounter("fault_duplicate_delivery")
-	fReqLost     = simrt.RegisterCounter("fault_request_lost")
-	fTruncResp   = simrt.RegisterCounter("fault_response_truncated")
-	cBusy        = simrt.RegisterCounter("op_busy_server_many_connections_and_devices")
-	fClientGone  = simrt.RegisterCounter("fault_client_disconnected_while_storage_works")
-	fProvision   = simrt.RegisterCounter("fault_device_provisioned_after_first_requests")
-	fKEKRotate   = simrt.RegisterCounter("fault_kek_replaced_in_store")
-	fKEKInPlace  = simrt.RegisterCounter("fault_kek_rewritten_in_place")
-	fSlowLong    = simrt.RegisterCounter("fault_storage_slow_seconds_or_more")
-	cLateWrite   = simrt.RegisterCounter("probe_response_written_after_handler_returned")
-	cSlowFail    = simrt.RegisterCounter("probe_slow_storage_answered_non_success")
-	errInjected  = errors.New("injected storage failure")
+	fStoKeys       = simrt.RegisterCounter("fault_storage_devicekeys_error")
+	fStoKEK        = simrt.RegisterCounter("fault_storage_kek_error")
+	fStoLabel      = simrt.RegisterCounter("fault_storage_askeklabel_error")
+	fStoNet        = simrt.RegisterCounter("fault_storage_homenetid_error")
+	fStoSlow       = simrt.RegisterCounter("fault_storage_slow")
+	fNonce         = simrt.RegisterCounter("fault_joinnonce_overflow")
+	fNonceEdge     = simrt.RegisterCounter("fault_joinnonce_counter_near_its_24bit_end")
+	fKEKLen        = simrt.RegisterCounter("fault_kek_invalid_length")
+	fUnknown       = simrt.RegisterCounter("fault_unknown_deveui")
+	fBadMIC        = simrt.RegisterCounter("fault_radio_corrupted_mic")
+	fBodyShort     = simrt.RegisterCounter("fault_body_short_reads")
+	fBodyErr       = simrt.RegisterCounter("fault_body_read_error")
+	fBodyEmpty     = simrt.RegisterCounter("fault_body_empty")
+	fBodyJunk      = simrt.RegisterCounter("fault_body_malformed_json")
+	fWrongType     = simrt.RegisterCounter("fault_body_wrong_message_type")
+	fWriteErr      = simrt.RegisterCounter("fault_response_write_error")
+	fRespLost      = simrt.RegisterCounter("fault_response_lost_then_retry")
+	fRxDelay       = simrt.RegisterCounter("fault_rxdelay_out_of_range")
+	fRotate        = simrt.RegisterCounter("fault_device_keys_rotated")
+	fConfused      = simrt.RegisterCounter("fault_message_type_and_frame_type_disagree")
+	cEmptyCFList   = simrt.RegisterCounter("probe_explicit_empty_cflist_member")
+	cRotRace       = simrt.RegisterCounter("probe_request_overtaken_by_key_rotation")
+	fRetryDup      = simrt.RegisterCounter("fault_duplicate_delivery")
+	fReqLost       = simrt.RegisterCounter("fault_request_lost")
+	fTruncResp     = simrt.RegisterCounter("fault_response_truncated")
+	cLibUnwrap     = simrt.RegisterCounter("probe_library_keyenvelope_unwrap_disagrees_not_judged")
+	cLegacyRefused = simrt.RegisterCounter("probe_rejoin_without_optneg_refused_not_judged")
+	cOddRefused    = simrt.RegisterCounter("probe_unusual_input_refused_not_judged")
+	cBusy          = simrt.RegisterCounter("op_busy_server_many_connections_and_devices")
+	fClientGone    = simrt.RegisterCounter("fault_client_disconnected_while_storage_works")
+	fProvision     = simrt.RegisterCounter("fault_device_provisioned_after_first_requests")
+	fKEKRotate     = simrt.RegisterCounter("fault_kek_replaced_in_store")
+	fKEKInPlace    = simrt.RegisterCounter("fault_kek_rewritten_in_place")
+	fSlowLong      = simrt.RegisterCounter("fault_storage_slow_seconds_or_more")
+	cLateWrite     = simrt.RegisterCounter("probe_response_written_after_handler_returned")
+	cSlowFail      = simrt.RegisterCounter("probe_slow_storage_answered_non_success")
+	errInjected    = errors.New("injected storage failure")
 )
 
 // ---------------------------------------------------------------- storage
@@ -177,12 +180,14 @@ func kekSet(label string, k []byte) {
 		if kekStore[i].label == label {
 			kekStore[i].kek = k
 			kekStore[i].want = append([]byte(nil), k...)
+			logSto(stoEv{kind: seKEKSet, dev: -1, label: label, kek: copyBytes(k)})
 			return
 		}
 	}
 	if kekStoreN < len(kekStore) {
 		kekStore[kekStoreN] = kekEntry{label, k, append([]byte(nil), k...)}
 		kekStoreN++
+		logSto(stoEv{kind: seKEKSet, dev: -1, label: label, kek: copyBytes(k)})
 	}
 }
 
@@ -194,6 +199,7 @@ func kekRewritten(k []byte) {
 	for i := 0; i < kekStoreN; i++ {
 		if len(kekStore[i].kek) > 0 && len(k) > 0 && &kekStore[i].kek[0] == &k[0] {
 			kekStore[i].want = append([]byte(nil), k...)
+			logSto(stoEv{kind: seKEKSet, dev: -1, label: kekStore[i].label, kek: copyBytes(k)})
 		}
 	}
 }
@@ -255,29 +261,20 @@ type reqCtx struct {
 	bodyShort bool
 	bodyErrAt int // -1 none
 	writeErr  bool
-	// record
-	firedKeys   bool // the injected storage faults that actually fired for this delivery
-	firedKEK    bool
-	firedLabel  bool
-	firedNet    bool
-	gen         int // key generation storage served to this request
-	gotKeys     bool
-	notFound    bool // storage answered ErrDevEUINotFound to this delivery
-	nonce       int
-	nsKEK       []byte // copies of what storage served to this delivery
-	nsServed    bool
-	asLabel     string
-	asKEK       []byte
-	asServed    bool
-	labelServed bool
-	slept       int64
-	cancelAt    int // cancel the request's context inside this storage callback (1-based count; 0 = never)
-	stoCalls    int
-	cancelled   bool // the client went away while the request was being handled
-	cancel      func()
-	kekCalls    int
-	nsLabel     string // the SenderID of the request this delivery belongs to
-	deliveries  int
+	// what the request is about (callbacks are attributed by what they ask)
+	devIdx    int
+	asLabelOf string // the AS KEK label configured for the request's device
+	odd       bool   // legal but unusual transport of this delivery (fault batches only)
+	// the window of the delivery: event numbers at hand-over and at return
+	inv, ret   int64
+	returned   bool
+	cancelAt   int // cancel the request's context inside this storage callback (1-based count; 0 = never)
+	stoCalls   int
+	cancelled  bool // the client went away while the request was being handled
+	cancel     func()
+	kekCalls   int
+	nsLabel    string // the SenderID of the request this delivery belongs to
+	deliveries int
 }
 
 type world struct {
@@ -288,33 +285,122 @@ type world struct {
 	cur     [simrt.MaxTasks]*reqCtx
 	faults  bool
 	nNS     int
+	allSlow int64
 }
 
 var theWorld *world
 
-func (w *world) ctx() *reqCtx {
-	// (a callback invoked from a goroutine the library started for a request
-	// belongs to that request)
+// reqOf returns the request in flight on the calling task (the network
+// server's own task: transport and response writer run there).
+//
+//go:norace
+func (w *world) reqOf() *reqCtx {
+	t := simrt.Current()
+	if t < 0 || t >= simrt.MaxTasks || w.cur[t] == nil {
+		return &reqCtx{bodyErrAt: -1, devIdx: -3}
+	}
+	return w.cur[t]
+}
+
+// ---- the storage log -------------------------------------------------------
+//
+// What storage did is recorded by WHAT it was asked (the DevEUI, the label)
+// and WHEN (the simulator's global event number), not by which task asked: a
+// handler may run its look-ups on the request's goroutine, on goroutines it
+// starts for the request, on a pool of workers that serve every request, more
+// than once, in any order. A request is judged against everything storage did
+// for its DevEUI and its labels between the moment it was handed to the
+// handler and the moment the handler returned.
+type stoEv struct {
+	kind  int8
+	dev   int    // device index (keys / label / not-found events)
+	label string // KEK events
+	tick  int64
+	nonce int
+	gen   int
+	kek   []byte // private copy
+	dur   int64
+}
+
+const (
+	seKeys     = iota + 1 // device keys served (nonce, gen)
+	seNotFound            // ErrDevEUINotFound answered
+	seKeysErr             // injected failure of the device-keys look-up
+	seKEK                 // a KEK served (label, bytes)
+	seKEKErr              // injected failure of a KEK look-up
+	seLabel               // AS KEK label served
+	seLabelErr            // injected failure of the label look-up
+	seSlow                // a callback took dur ns of virtual time
+	seKEKSet              // the store holds kek under label from here on
+)
+
+var (
+	stoLog [8192]stoEv
+	stoN   int
+)
+
+//go:norace
+func logSto(e stoEv) {
+	e.tick = simrt.Tick()
+	if stoN < len(stoLog) {
+		stoLog[stoN] = e
+		stoN++
+	}
+}
+
+//go:norace
+func stoReset() {
+	for i := 0; i < stoN; i++ {
+		stoLog[i] = stoEv{}
+	}
+	stoN = 0
+}
+
+//go:norace
+func stoEvents() []stoEv { return stoLog[:stoN] }
+
+//go:norace
+func copyBytes(b []byte) []byte {
+	out := make([]byte, len(b))
+	copy(out, b)
+	return out
+}
+
+// planFor returns the fault plan of the request a callback belongs to - the
+// request in flight on the calling task or on the task whose go statement
+// (or timer) started it - if that request is about this device / this label;
+// nil otherwise (a callback nobody can attribute is served without faults).
+//
+//go:norace
+func (w *world) planFor(dev int, label string) *reqCtx {
 	var c *reqCtx
 	for t := simrt.Current(); t >= 0 && t < simrt.MaxTasks && c == nil; t = simrt.Parent(t) {
 		c = w.cur[t]
 	}
-	if c == nil {
-		c = &reqCtx{bodyErrAt: -1}
+	if c == nil || c.returned {
+		return nil
+	}
+	if dev >= 0 && c.devIdx != dev {
+		return nil
+	}
+	if dev < 0 && !(label == c.asLabelOf || label == c.nsLabel || sameNetIDSpelling(label, c.nsLabel)) {
+		return nil
 	}
 	return c
 }
 
-// slowDown: a slow storage back-end (virtual time passes inside the callback).
+// slowDown: a slow storage back-end (virtual time passes inside the callback)
+// and the client that goes away while storage works.
 //
-// The storage callbacks keep the per-request record (what was served, which
-// fault fired). A handler may call them from several goroutines of one
-// request at the same time; a real store is safe for that, so the record is
-// harness bookkeeping outside the race detector's view (norace), like the
-// scheduler's own state.
+// The storage callbacks are harness bookkeeping outside the race detector's
+// view (norace), like the scheduler's own state: a handler may call them from
+// several goroutines at the same time; a real store is safe for that.
 //
 //go:norace
-func (w *world) slowDown(c *reqCtx) {
+func (w *world) slowDown(c *reqCtx, dev int, label string) {
+	if c == nil {
+		return
+	}
 	c.stoCalls++
 	if c.cancelAt > 0 && c.stoCalls == c.cancelAt && c.cancel != nil {
 		// the network server closed the connection (its own time-out, a
@@ -324,7 +410,7 @@ func (w *world) slowDown(c *reqCtx) {
 		c.cancel()
 	}
 	if c.slow > 0 {
-		c.slept += c.slow
+		logSto(stoEv{kind: seSlow, dev: dev, label: label, dur: c.slow})
 		simrt.Sleep(c.slow)
 	}
 }
@@ -332,68 +418,65 @@ func (w *world) slowDown(c *reqCtx) {
 //go:norace
 func (w *world) getDeviceKeys(devEUI lorawan.EUI64) (joinserver.DeviceKeys, error) {
 	simrt.Seam(10)
-	c := w.ctx()
-	simrt.Trace(evSto, 1, uint64(c.failKeys))
-	w.slowDown(c)
-	switch c.failKeys {
+	rec, ok := w.byEUI[devEUI]
+	dev := -2
+	if ok {
+		dev = rec.idx
+	}
+	c := w.planFor(dev, "")
+	fail := 0
+	if c != nil {
+		fail = c.failKeys
+	}
+	simrt.Trace(evSto, 1, uint64(fail))
+	w.slowDown(c, dev, "")
+	switch fail {
 	case 1:
 		if !(c.failOnce && c.failedK[0]) {
 			c.failedK[0] = true
-			c.firedKeys = true
+			logSto(stoEv{kind: seKeysErr, dev: dev})
 			return joinserver.DeviceKeys{}, errInjected
 		}
 	case 2:
-		c.notFound = true
+		logSto(stoEv{kind: seNotFound, dev: dev})
 		return joinserver.DeviceKeys{}, joinserver.ErrDevEUINotFound
 	}
-	rec, ok := w.byEUI[devEUI]
 	if !ok || !isKnown(rec.idx) {
-		c.notFound = true
+		logSto(stoEv{kind: seNotFound, dev: dev})
 		return joinserver.DeviceKeys{}, joinserver.ErrDevEUINotFound
 	}
 	n := nextNonce(rec.idx)
-	if c.overflow {
+	if c != nil && c.overflow {
 		n = 1<<24 + n
 	}
-	if n >= 1<<24 {
-		c.overflow = true // the counter ran over by itself
-	}
-	c.gotKeys = true
-	c.nonce = n
-	c.gen = curGen(rec.idx)
-	d := rec.gens[c.gen]
+	g := curGen(rec.idx)
+	logSto(stoEv{kind: seKeys, dev: dev, nonce: n, gen: g})
+	d := rec.gens[g]
 	return joinserver.DeviceKeys{DevEUI: devEUI, NwkKey: lorawan.AES128Key(d.NwkKey), AppKey: lorawan.AES128Key(d.AppKey), JoinNonce: n}, nil
 }
 
 //go:norace
 func (w *world) getKEK(label string) ([]byte, error) {
 	simrt.Seam(11)
-	c := w.ctx()
-	c.kekCalls++
+	c := w.planFor(-1, label)
 	// which of the two look-ups of a request this is follows from the label,
-	// not from the order of the calls (a handler may issue them in any order,
-	// or at the same time): the NS KEK is asked for under the SenderID
-	isNS := c.nsLabel != "" && (label == c.nsLabel || sameNetIDSpelling(label, c.nsLabel))
+	// not from the order of the calls: the NS KEK is asked for under the SenderID
 	which := 2
-	if isNS {
+	if c != nil && c.nsLabel != "" && (label == c.nsLabel || sameNetIDSpelling(label, c.nsLabel)) {
 		which = 1
 	}
 	simrt.Trace(evSto, 2, uint64(which))
-	w.slowDown(c)
-	if c.failKEK == which && !(c.failOnce && c.failedK[which]) {
+	w.slowDown(c, -1, label)
+	if c != nil && c.failKEK == which && !(c.failOnce && c.failedK[which]) {
 		c.failedK[which] = true
-		c.firedKEK = true
+		logSto(stoEv{kind: seKEKErr, dev: -1, label: label})
 		return nil, errInjected
 	}
 	// (the store's own lock: a re-keyed entry is published by the operator and
 	// acquired by the readers that come after it)
 	atomic.LoadInt32(&kekPub)
 	k := kekGet(label)
-	if isNS {
-		c.nsKEK, c.nsServed = append([]byte(nil), k...), true
-	} else {
-		c.asKEK, c.asServed = append([]byte(nil), k...), true
-	}
+	logSto(stoEv{kind: seKEK, dev: -1, label: label, kek: copyBytes(k)})
 	// storage hands out the slice it holds (as the repository's own test
 	// storage does): the handler must treat it as read-only
 	return k, nil
@@ -402,33 +485,39 @@ func (w *world) getKEK(label string) ([]byte, error) {
 //go:norace
 func (w *world) getASLabel(devEUI lorawan.EUI64) (string, error) {
 	simrt.Seam(12)
-	c := w.ctx()
+	rec, ok := w.byEUI[devEUI]
+	dev := -2
+	if ok {
+		dev = rec.idx
+	}
+	c := w.planFor(dev, "")
 	simrt.Trace(evSto, 3, 0)
-	w.slowDown(c)
-	if c.failLabel && !(c.failOnce && c.failedK[3]) {
+	w.slowDown(c, dev, "")
+	if c != nil && c.failLabel && !(c.failOnce && c.failedK[3]) {
 		c.failedK[3] = true
-		c.firedLabel = true
+		logSto(stoEv{kind: seLabelErr, dev: dev})
 		return "", errInjected
 	}
-	rec, ok := w.byEUI[devEUI]
 	if !ok {
 		return "", nil
 	}
-	c.asLabel = rec.asLabel
-	c.labelServed = true
+	logSto(stoEv{kind: seLabel, dev: dev})
 	return rec.asLabel, nil
 }
 
 //go:norace
 func (w *world) getHomeNetID(devEUI lorawan.EUI64) (lorawan.NetID, error) {
 	simrt.Seam(13)
-	c := w.ctx()
+	rec, ok := w.byEUI[devEUI]
+	dev := -2
+	if ok {
+		dev = rec.idx
+	}
+	c := w.planFor(dev, "")
 	simrt.Trace(evSto, 4, 0)
-	if c.failNet {
-		c.firedNet = true
+	if c != nil && c.failNet {
 		return lorawan.NetID{}, errInjected
 	}
-	rec, ok := w.byEUI[devEUI]
 	if !ok || !isKnown(rec.idx) {
 		return lorawan.NetID{}, joinserver.ErrDevEUINotFound
 	}
@@ -523,11 +612,20 @@ func (r *respWriter) Write(b []byte) (int, error) {
 }
 
 // serve delivers one request body to the real handler on the calling task.
-func (w *world) serve(body []byte, c *reqCtx) (int, []byte) {
+func (w *world) serve(body []byte, c *reqCtx, hdr http.Header) (int, []byte) {
 	c.deliveries++
-	c.kekCalls = 0
+	c.returned = false
+	c.inv = simrt.Tick()
+	defer func() { c.ret = simrt.Tick(); c.returned = true }()
 	fb := &faultyBody{b: body, short: c.bodyShort, errAt: c.bodyErrAt}
 	req, _ := http.NewRequest(http.MethodPost, "http://js.sim/", fb)
+	// (the headers the client set travel with the request; a raw peer sends JSON)
+	for k, v := range hdr { // det-ok: copied into a map, order irrelevant
+		req.Header[k] = append([]string(nil), v...)
+	}
+	if req.Header.Get("Content-Type") == "" {
+		req.Header.Set("Content-Type", "application/json")
+	}
 	c.stoCalls = 0
 	if c.cancelAt > 0 {
 		ctx, cancel := context.WithCancel(context.Background())
@@ -537,12 +635,13 @@ func (w *world) serve(body []byte, c *reqCtx) (int, []byte) {
 	}
 	// a server sees the declared length of an identity-encoded body, and -1
 	// for a chunked one (the body reader delivers what it delivers either way)
-	if (len(body)+c.deliveries)%3 != 0 {
+	if !w.faults || (len(body)+c.deliveries)%3 != 0 {
 		req.ContentLength = int64(len(body))
 		req.Header.Set("Content-Length", fmt.Sprint(len(body)))
 	} else {
 		req.ContentLength = -1
 		req.TransferEncoding = []string{"chunked"}
+		c.odd = true // (a stricter server may insist on a declared length)
 	}
 	rw := &respWriter{hdr: http.Header{}, writeErr: c.writeErr}
 	if enterHandler() > 1 {
@@ -587,7 +686,7 @@ func (simTransport) RoundTrip(req *http.Request) (*http.Response, error) {
 		simrt.Count(fReqLost)
 		return nil, errors.New("injected: request lost")
 	}
-	code, out := w.serve(body, w.ctx())
+	code, out := w.serve(body, w.reqOf(), req.Header)
 	if p != nil && p.loseResponse {
 		simrt.Count(fRespLost)
 		return nil, errors.New("injected: response lost")
@@ -620,6 +719,11 @@ func build(sw *sim.World) {
 		nDev = 12 + simrt.Choose(36)
 		nNS = 6 + simrt.Choose(24)
 		simrt.Count(cBusy)
+		// half of the busy servers sit on a storage back-end that is slow for
+		// everybody (requests pile up inside the handler)
+		if simrt.Choose(2) == 1 {
+			w.allSlow = []int64{20e6, 200e6, 900e6}[simrt.Choose(3)]
+		}
 	}
 	w.faults = simrt.Choose(3) != 0
 	w.nNS = nNS
@@ -700,6 +804,7 @@ func build(sw *sim.World) {
 	// keks0 follows every change the HARNESS makes, so that a difference at the
 	// end of the run is a write by the handler into data storage handed out
 	kekReset()
+	stoReset()
 	for _, l := range sortedKeys(w.keks) {
 		kekSet(l, w.keks[l])
 	}
@@ -768,6 +873,7 @@ type request struct {
 	viaClient   bool
 	rawKind     int  // 0 well-formed, 1 empty, 2 junk, 3 wrong message type, 4 bad hex
 	knownAtSend bool // storage knew the device when the request was built (it never forgets one)
+	odd         bool // legal but unusual input (fault batches only): a stricter join-server may refuse it
 }
 
 func genCFList(r *sim.Rand) []byte {
@@ -835,7 +941,14 @@ func nsTask(w *world, id int, netID lorawan.NetID, senderID string, n int, sub u
 			rq.nonce = []uint16{0, 1, 0xff, 0x100, 0xfffe, 0xffff}[r.Intn(6)]
 		}
 		rq.optNeg = r.Intn(2) == 0
-		rq.macVersion = []string{"1.0.2", "1.0.3", "1.0.4", "1.1.0", ""}[r.Intn(5)]
+		// what the NS believes the device speaks: consistent with the request
+		// (1.1 when OptNeg, 1.0.x otherwise; rejoin-requests exist in 1.1 only)
+		if rq.optNeg || rq.kind >= 1 && rq.kind <= 3 {
+			rq.macVersion = "1.1.0"
+		} else {
+			rq.macVersion = []string{"1.0.2", "1.0.3", "1.0.4"}[r.Intn(3)]
+		}
+		oddVersion := []string{"1.0.2", "1.0.3", "1.0.4", "1.1.0", ""}[r.Intn(5)]
 		r.Fill(rq.devAddr[:])
 		switch r.Intn(12) {
 		case 0:
@@ -849,7 +962,10 @@ func nsTask(w *world, id int, netID lorawan.NetID, senderID string, n int, sub u
 			rq.cfList = genCFList(r)
 			simrt.Count(cCFList)
 		}
-		c := &reqCtx{bodyErrAt: -1, nsLabel: senderID}
+		c := &reqCtx{bodyErrAt: -1, nsLabel: senderID, devIdx: rq.rec.idx, asLabelOf: rq.rec.asLabel}
+		if !live {
+			c.slow = w.allSlow
+		}
 		faults := w.faults && !live
 		if faults {
 			if r.Intn(8) == 0 {
@@ -886,6 +1002,12 @@ func nsTask(w *world, id int, netID lorawan.NetID, senderID string, n int, sub u
 				c.cancelAt = 1 + r.Intn(4)
 			}
 			c.failOnce = r.Intn(3) == 0
+			if r.Intn(4) == 0 && oddVersion != rq.macVersion {
+				// a MACVersion that does not fit the request (or none): a stricter
+				// join-server may refuse it; a Success is judged like any other
+				rq.macVersion = oddVersion
+				rq.odd = true
+			}
 		}
 		// the operator provisions a device that was unknown so far (requests for
 		// it were answered UnknownDevEUI until now and must succeed from now on)
@@ -946,9 +1068,10 @@ func nsTask(w *world, id int, netID lorawan.NetID, senderID string, n int, sub u
 			if r.Intn(2) == 0 {
 				rq.phy[len(rq.phy)-1-r.Intn(4)] ^= 1 << uint(r.Intn(8))
 			} else {
-				// a corrupted body byte (the EUIs and the nonce are covered by the MIC);
-				// byte 1 of a rejoin-request (its type) stays
-				rq.phy[2+r.Intn(len(rq.phy)-6)] ^= 1 << uint(r.Intn(8))
+				// a corrupted DevNonce / RJCount octet (the two octets in front of
+				// the MIC); the EUIs stay: the frame still names the device the
+				// message is about
+				rq.phy[len(rq.phy)-6+r.Intn(2)] ^= 1 << uint(r.Intn(8))
 			}
 		}
 		rq.viaClient = r.Intn(3) != 0
@@ -1044,7 +1167,7 @@ func doRequest(w *world, r *sim.Rand, rq *request, c *reqCtx, faults, live bool)
 			if a > 0 {
 				simrt.Count(fRetryDup)
 				// the retry is a fresh delivery: new record, same plan
-				*c = reqCtx{bodyErrAt: -1, nsLabel: c.nsLabel, failKeys: c.failKeys, failKEK: c.failKEK, failLabel: c.failLabel, failNet: c.failNet, overflow: c.overflow, bodyShort: c.bodyShort, slow: c.slow, cancelAt: c.cancelAt, failOnce: c.failOnce}
+				*c = reqCtx{bodyErrAt: -1, nsLabel: c.nsLabel, devIdx: c.devIdx, asLabelOf: c.asLabelOf, failKeys: c.failKeys, failKEK: c.failKEK, failLabel: c.failLabel, failNet: c.failNet, overflow: c.overflow, bodyShort: c.bodyShort, slow: c.slow, cancelAt: c.cancelAt, failOnce: c.failOnce}
 			}
 			var base backend.BasePayloadResult
 			var got interface{}
@@ -1104,7 +1227,8 @@ func doRequest(w *world, r *sim.Rand, rq *request, c *reqCtx, faults, live bool)
 		}
 		simrt.Count(fConfused)
 	}
-	if rq.rawKind == 0 && rq.cfList == nil && rq.kind != 4 && r.Intn(3) == 0 {
+	if faults && rq.rawKind == 0 && rq.cfList == nil && rq.kind != 4 && r.Intn(3) == 0 {
+		rq.odd = true
 		// a non-Go peer may send the optional member explicitly empty
 		body = bytes.Replace(body, []byte(`"RxDelay":`), []byte(`"CFList":"","RxDelay":`), 1)
 		simrt.Count(cEmptyCFList)
@@ -1117,13 +1241,13 @@ func doRequest(w *world, r *sim.Rand, rq *request, c *reqCtx, faults, live bool)
 		c.writeErr = true
 		simrt.Count(fWriteErr)
 	}
-	code, out := w.serve(body, c)
+	code, out := w.serve(body, c, nil)
 	if c.writeErr {
 		// the response was cut by the writer: nothing to judge but that the
 		// handler survived; retry without the fault
-		*c = reqCtx{bodyErrAt: -1, nsLabel: c.nsLabel, failKeys: c.failKeys, failKEK: c.failKEK, failLabel: c.failLabel, failNet: c.failNet, overflow: c.overflow, slow: c.slow, failOnce: c.failOnce}
+		*c = reqCtx{bodyErrAt: -1, nsLabel: c.nsLabel, devIdx: c.devIdx, asLabelOf: c.asLabelOf, failKeys: c.failKeys, failKEK: c.failKEK, failLabel: c.failLabel, failNet: c.failNet, overflow: c.overflow, slow: c.slow, failOnce: c.failOnce}
 		simrt.Count(fRetryDup)
-		code, out = w.serve(body, c)
+		code, out = w.serve(body, c, nil)
 	}
 	if rq.rawKind == 5 {
 		// there is no valid request here: whatever the answer is, it must not be Success
@@ -1131,7 +1255,10 @@ func doRequest(w *world, r *sim.Rand, rq *request, c *reqCtx, faults, live bool)
 			Result backend.Result `json:"Result"`
 		}
 		json.Unmarshal(out, &res)
-		if res.Result.ResultCode == backend.Success {
+		if res.Result.ResultCode == backend.Success && !rq.badMIC {
+			// (a join-server that goes by the frame it finds may answer it for what it is)
+			simrt.Count(cOddRefused)
+		} else if res.Result.ResultCode == backend.Success {
 			simrt.Report("j3.type-confusion-accepted", fmt.Sprintf("a message whose MessageType and frame type disagree (request kind %d sent as the other type, wrong-MIC=%v) was answered Success: %s", rq.kind, rq.badMIC, firstN(out, 300)))
 		}
 		return
@@ -1148,9 +1275,17 @@ func doRequest(w *world, r *sim.Rand, rq *request, c *reqCtx, faults, live bool)
 		if rc == "" {
 			rc = res.ResultCode
 		}
-		if rc == backend.Success {
+		if rc == backend.Success && rq.rawKind == 4 {
+			simrt.Count(cOddRefused) // (a laxer join-server may take the DevEUI from the frame)
+		} else if rc == backend.Success {
 			simrt.Report("j3.malformed-accepted", fmt.Sprintf("malformed request (kind %d, body error at %d) answered Success (HTTP %d): %s", rq.rawKind, c.bodyErrAt, code, firstN(out, 300)))
 		}
+		return
+	}
+	if !json.Valid(out) && (c.cancelled || c.slow > 0) {
+		// nobody is there to read the answer any more, or the join-server gave
+		// up on slow storage in its own way (say, a plain-text 503): not judged
+		simrt.Count(cSlowFail)
 		return
 	}
 	var base backend.BasePayloadResult
